@@ -17,6 +17,13 @@ NA = {
 
 # property -> check description; filled in as units are built
 CHECKS = {
+    "C07": {
+        "category": "model_checking",
+        "technique": "bounded Kani harnesses with function-level contracts (byte-string definition of environment lookup, last-pair-wins aux values) on the real start/env code over symbolic memory images",
+        "text": "Bounded, partial: on the compiled crates, for every well-formed initial stack image of four concrete shapes with symbolic contents, tiny_start::start::resolve returns pointers to exactly the kernel's argv/envp words and per aux key the value of the last pair with that key (unknown/large keys ignored, nothing read past AT_NULL); env::var / var_unix return the value of the first entry whose name equals the key exactly, Missing otherwise, NotUnicode iff the value is not UTF-8, for every environment of <= 2 entries x <= 4 bytes over the full byte alphabet and every key up to 3-4 bytes; args_os yields exactly argv[0..argc]. Out-of-bounds reads fail Kani's pointer checks. This is a bounded stand-in, not a proof.",
+        "note": "NOT decided: _start assembly, static-PIE self-relocation (relocate_symbols), vDSO lookup/agreement, 'in every link mode', debug/release differences. Keys assumed non-empty without '='. Hook: tiny-std feature verif-hooks (env::verif_set_env).",
+        "design_ref": "§4.C07",
+    },
     "C18": {
         "category": "proof",
         "technique": "Kani loop-free harness on the real Drop impl under ghost mapping/descriptor-table contracts (frame condition over the syscall trace)",
@@ -117,7 +124,7 @@ def main():
     print("MANIFEST.json: %d checks, %d not_applicable" % (len(checks), len(na)))
 
 
-HOOK_COMMITS = ["c98543c"]
+HOOK_COMMITS = ["c98543c", "744c63e"]
 
 if __name__ == "__main__":
     main()
